@@ -3,7 +3,7 @@ import re
 from .. import env, histgen, session, wire, scripts, refmatch as rm
 from ..runner import Prop, Stage, Result
 
-PROFILE = dict(reuse=0.6, weights=dict(newer=4, delete=16, bind=12, message=52, server_event=8, sync=8, enum=4))
+PROFILE = dict(reuse=0.6, weights=dict(repeat=4, newer=4, delete=16, bind=12, message=52, server_event=8, sync=8, enum=4))
 TOK = re.compile(r'-?\d+\.\d{4}')
 
 
@@ -24,7 +24,7 @@ def run(case, shift):
     items = [['line', l] for l in render_lines(specs, case['dialect'])]
     for c in case['lists']:
         items.append(['cmd', c])
-    s = session.Session(filter_text=case.get('filter'))
+    s = session.Session(filter_text=case.get('filter'), break_text=case.get('brk'))
     segs = s.run(items)
     return s, segs, specs
 
@@ -179,7 +179,9 @@ class Shifts(Stage):
         for _ in range(d.int(0, 3)):
             lists.append('list ' + (d.choice(['*', 'wl_display', '.delete_id', 'A:', '', 'wl_registry', '.new', 'wl_callback', '.bind', '* ! wl_display', 'B:', '* ! wl_registry'])
                                     if d.chance(0.7) else scripts.gen_matcher_text(d, g2)))
-        return dict(specs=specs, dialect=d.choice(['new', 'old', 'old-comma']), shift=shift, filter=flt, lists=lists, order=order)
+        # a breakpoint matcher (-b) prints `Stopped at` notes; it must not influence times or separators
+        brk = d.choice(['wl_display', 'wl_registry', '.delete_id', '.bind', '*', '.new', 'wl_callback', '* ! wl_display', '.' + specs[d.int(0, len(specs) - 1)]['name']]) if d.chance(0.35) else None
+        return dict(specs=specs, dialect=d.choice(['new', 'old', 'old-comma']), shift=shift, filter=flt, lists=lists, order=order, brk=brk)
 
     def execute(self, case):
         res = Result()
@@ -202,6 +204,7 @@ class Shifts(Stage):
         res.label('dialect:' + case['dialect'])
         if case['shift']: res.label('shifted')
         if case['lists']: res.label('with-listing')
+        if case.get('brk'): res.label('with-breakpoint-matcher')
         res.label(case.get('order', 'chronological'))
         res.sample = dict(dialect=case['dialect'], shift=case['shift'], filter=case.get('filter'), lines=render_lines(case['specs'], case['dialect'])[:6], lists=case['lists'])
         return res
